@@ -348,7 +348,9 @@ KX = ('src/rgb_xyb.rs', 'k_rgb_xyb.rs', 'verif_kani_rgb_xyb')
 XYB_ND = ['accuracy of cbrtf (see C18) and f32 rounding: the 2e-6 / 5e-5 budgets are decided only under exact-real semantics with cbrtf as an (ideal) uninterpreted cube root']
 def plan_c04(tier, seed):
     hs = [H('opsin_total', domain='all f32 triples', desc='opsin_absorbance + mixed_to_xyb: no panic/overflow'),
-          H('opsin_unit_cube_positive', domain='[0,1]^3', desc='mixes finite, >= 0.003 (normal positive argument for cbrtf), <= 1.01')]
+          H('opsin_unit_cube_positive', domain='[0,1]^3', desc='mixes finite, >= 0.003 (normal positive argument for cbrtf), <= 1.01'),
+          H('xyb_definition_structure_stubbed_cbrt', bounded='8^3 grid {-1,-0.6,-0.25,0,0.3,0.5,1,4}^3 of one-pixel images; cbrtf stubbed by a cheap smooth g (the cube root itself is C18)',
+            domain='512 pixels (symbolic index triple)', desc='real linear_rgb_to_xyb == the statement formula X=(L-M)/2, Y=(L+M)/2, B=S, (L,M,S)=g(max(0,A*rgb+b))-g(b) from libjxl digits in f64, within 5e-5: decides where clamp, bias and X/Y mix sit, independently of the Verus loop anchors')]
     return {'verus': [('u_xyb', {})], 'kani': [{'crate_dir': '', 'inject': [KX], 'harnesses': hs}]}
 reg('C04', plan=plan_c04, level='proof', min_obligations=60,
     title='Linear RGB->XYB equals the JPEG XL opsin definition (exact reals, cbrtf uninterpreted)',
@@ -359,7 +361,8 @@ reg('C04', plan=plan_c04, level='proof', min_obligations=60,
          'NOT decided: the 2e-6 budget under f32 rounding and the accuracy of cbrtf.',
     note=EXACT + '; ' + BITPRECISE + '. ' + TOOLS, assumptions=[EXACT, BITPRECISE], not_decided=XYB_ND, design_ref='DESIGN.md §5 C04')
 def plan_c05(tier, seed):
-    hs = [H('xyb_inverse_one_pixel_total', bounded='Vec length 1', domain='one pixel, all f32 triples', desc='xyb_to_linear_rgb total (no panic/overflow), length preserved')]
+    hs = [H('xyb_inverse_one_pixel_total', bounded='Vec length 1', domain='one pixel, all f32 triples', desc='xyb_to_linear_rgb total (no panic/overflow), length preserved'),
+          H('xyb_round_trip_fixed_2px', fixed=True, bounded='two FIXED pixels, real cbrtf', domain='one fixed 2-pixel image', desc='real linear_rgb_to_xyb then xyb_to_linear_rgb returns both pixels within 5e-5 (f32, real cube root), length kept')]
     return {'verus': [('u_xyb', {})], 'kani': [{'crate_dir': '', 'inject': [KX], 'harnesses': hs}]}
 reg('C05', plan=plan_c05, level='proof', min_obligations=40,
     title='XYB->linear RGB inverts the forward XYB transform (exact reals, ideal cube root)',
